@@ -448,7 +448,9 @@ fn normal_from_introspection(data: &J) -> J {
             fields.insert(f["name"].as_str().unwrap().to_string(), json!({"ty": ty_of(&f["type"]), "args": sort_args(&args_of(&f["args"]))}));
         }
         let members = if kind == "UNION" { names(&t["possibleTypes"]) } else { vec![] };
-        types.insert(name.to_string(), json!({"kind": kind, "fields": fields, "implements": names(&t["interfaces"]), "members": members,
+        // (the interfaces of an INTERFACE type are not compared: introspection of dynamic schemas does not list them)
+        let implements = if kind == "OBJECT" { names(&t["interfaces"]) } else { vec![] };
+        types.insert(name.to_string(), json!({"kind": kind, "fields": fields, "implements": implements, "members": members,
             "values": names(&t["enumValues"]), "inputFields": sort_args(&args_of(&t["inputFields"]))}));
     }
     let mut dirs = serde_json::Map::new();
@@ -465,7 +467,8 @@ fn normal_from_ts(ts: &J, is_static: bool) -> J {
         let mut fields = serde_json::Map::new();
         for (fname, f) in t["fields"].as_object().unwrap() { fields.insert(fname.clone(), json!({"ty": f["ty"], "args": sort_args(&f["args"])})); }
         let sorted = |k: &str| { let mut v: Vec<String> = t[k].as_array().unwrap().iter().map(|x| x.as_str().unwrap().to_string()).collect(); v.sort(); v };
-        types.insert(name.clone(), json!({"kind": t["kind"], "fields": fields, "implements": sorted("implements"), "members": sorted("members"), "values": sorted("values"), "inputFields": sort_args(&t["inputFields"])}));
+        let implements = if t["kind"] == "OBJECT" { sorted("implements") } else { vec![] };
+        types.insert(name.clone(), json!({"kind": t["kind"], "fields": fields, "implements": implements, "members": sorted("members"), "values": sorted("values"), "inputFields": sort_args(&t["inputFields"])}));
     }
     let mut dirs = serde_json::Map::new();
     for (name, d) in ts["directives"].as_object().unwrap() {
@@ -518,6 +521,7 @@ fn main() {
     let cases = read_ndjson(&args[1]);
     let mut out = NdWriter::create(&args[2]);
     let mut n = 0usize;
+    let mut custom_cache: std::collections::HashMap<String, Result<dy::Schema, String>> = std::collections::HashMap::new();
     for mut case in cases {
         let text = print_doc(&case["doc"]);
         case["text"] = json!(text);
@@ -532,7 +536,19 @@ fn main() {
             sel.map(|o| o["ty"] == "subscription").unwrap_or(false)
         }).unwrap_or(false);
         let flavour = case["flavour"].as_str().unwrap_or("static").to_string();
-        let custom = if flavour == "dynamic" && case["ts"].is_object() { Some(dynamic_schema(&case["ts"])) } else { None };
+        // a case may carry its own type system (dynamic flavour): built once per distinct type system and
+        // compared with the live registry through introspection, like the default one
+        let custom: Option<Result<dy::Schema, String>> = if flavour == "dynamic" && case["ts"].is_object() {
+            let key = case["ts"].to_string();
+            if !custom_cache.contains_key(&key) {
+                let built = dynamic_schema(&case["ts"]);
+                if let Ok(sch) = &built {
+                    mirror_check(&case["ts"], futures_executor::block_on(sch.execute(Request::new(INTROSPECT).data(Arc::new(ReqObs::default())))), false);
+                }
+                custom_cache.insert(key.clone(), built);
+            }
+            custom_cache.get(&key).cloned()
+        } else { None };
         let result: Result<Result<Option<Response>, String>, String> = vh::exec::catch(|| {
             if flavour == "static" {
                 Ok(if is_sub { futures_executor::block_on(st.execute_stream(request).next()) } else { Some(futures_executor::block_on(st.execute(request))) })
